@@ -50,8 +50,8 @@ ASSUMPTIONS = [
     "models whose SDL the builder rejects (C11 findings) are exercised through the code route only",
 ]
 BOUNDS = {
-    "quick": {"features": 2, "generic_executor_upto": 1, "type_lookup_upto": 2, "disabled_upto": 2},
-    "thorough": {"features": 3, "generic_executor_upto": 2, "type_lookup_upto": 2, "disabled_upto": 2},
+    "quick": {"features": 2, "generic_executor_upto": 1, "type_lookup_upto": 2, "disabled_upto": 2, "both_routes_upto": 2},
+    "thorough": {"features": 3, "generic_executor_upto": 2, "type_lookup_upto": 2, "disabled_upto": 2, "both_routes_upto": 2},
 }
 TIME_CAP = {"quick": 150, "thorough": 1500}
 
@@ -428,12 +428,18 @@ def parts_for(features, route, bounds):
 def cases(tier):
     b = BOUNDS[tier]
     for fs in G.feature_sets(b["features"]):
+        if len(fs) > b["both_routes_upto"]:
+            # largest sets: one route -- SDL, or the constructors when the builder rejects the SDL
+            yield {"features": fs, "route": "sdl-or-code+", "tier": tier}
+            continue
         yield {"features": fs, "route": "sdl", "tier": tier}
         yield {"features": fs, "route": "code+", "tier": tier}
 
 
 def check_case(case, st):
     sm = G.build_sm(case["features"])
+    if case["route"] == "sdl-or-code+":
+        case = dict(case, route="sdl" if make(case["features"], "sdl")[0] is not None else "code+")
     if case["route"] == "code+" and len(case["features"]) > 0 and not _has_code_facets(sm):
         st.n("code_route_skipped_no_code_facets")
         return []
